@@ -68,7 +68,16 @@ Definition mig_model (c : World.world * (str + (str * cfgdata)) * store * list b
                      compute=[1], drys=[True, False, False]),
                 dict(classes=[K(0, 'A', params=[P('x')]), K(1, 'B', group='g', meta_inputs=[{'cls': 0}])],
                      files={'cfg/main.json': {'tasks': ['@M.*'], 'x': 1}}, base={'file': 'cfg/main.json'}, context=None,
-                     compute=[0, 1], drys=[True, True, False], verbose=False)]
+                     compute=[0, 1], drys=[True, True, False], verbose=False),
+                # the chain of a part of a multi-config file that is not the main part
+                dict(classes=[K(0, 'A', params=[P('x')]), K(1, 'B', group='g', meta_inputs=[{'cls': 0}])],
+                     files={'multi.json': {'configs': {'p0': {'tasks': ['@M.*'], 'x': 1, 'main_part': True},
+                                                       'p1': {'tasks': ['@M.*'], 'x': 2}}}},
+                     base={'file': 'multi.json#p1'}, context=None, compute=[0, 1], drys=[False, False], verbose=False),
+                dict(classes=[K(0, 'A', params=[P('x')]), K(1, 'B', group='g', meta_inputs=[{'cls': 0}])],
+                     files={'multi.json': {'configs': {'p0': {'tasks': ['@M.A'], 'x': 1},
+                                                       'p1': {'tasks': ['@M.B'], 'uses': '#p0'}}}},
+                     base={'file': 'multi.json#p1'}, context=None, compute=[0, 1], drys=[True, False], verbose=True)]
 
     def gen(self, rng, tier):
         from ..gen_pipeline import gen_case
